@@ -28,6 +28,12 @@ from lib import common
 CROSSHAIR = str(common.VERIF / ".venv" / "bin" / "crosshair")
 
 
+def _pp(workdir) -> str:
+    """PYTHONPATH of harness subprocesses; VERIF_NUNAVUT_SRC (testing aid) puts another checkout's src/ in front of /repo/src"""
+    alt = os.environ.get("VERIF_NUNAVUT_SRC")
+    return (f"{alt}:" if alt else "") + f"{workdir}:{common.VERIF}"
+
+
 class Cond:
     def __init__(self, module: str, func: str, timeout: float, path_timeout: Optional[float] = None,
                  params: Optional[Dict[str, str]] = None, expect: str = "confirm", key: Optional[str] = None):
@@ -83,9 +89,13 @@ _RX_INFO = re.compile(r"^(.*?):(\d+): info: (.*)$")
 
 def _run_one(args) -> Dict[str, Any]:
     workdir, module, func, timeout, path_timeout, params = args
+    # Budgets are upper bounds, never part of a verdict: a confirmation needs every path explored.  They are stretched (default x2.5) so that a
+    # loaded or slower machine does not turn a condition that holds into "Not confirmed"; measured walls are recorded in the evidence.
+    scale = float(os.environ.get("VERIF_TIMEOUT_SCALE", "2.5"))
+    timeout, path_timeout = timeout * scale, (path_timeout * scale if path_timeout else path_timeout)
     env = dict(os.environ)
     env.update(params)
-    env["PYTHONPATH"] = f"{workdir}:{common.VERIF}"
+    env["PYTHONPATH"] = _pp(workdir)
     env["PYTHONHASHSEED"] = "0"
     env["VERIF_UNDER_CROSSHAIR"] = "1"
     # only read-only directory-enumeration events are unblocked (harness modules parse DSDL namespaces at import time);
@@ -132,7 +142,7 @@ def replay_native(workdir: pathlib.Path, module: str, call: str, params: Dict[st
     )
     env = dict(os.environ)
     env.update(params)
-    env["PYTHONPATH"] = f"{workdir}:{common.VERIF}"
+    env["PYTHONPATH"] = _pp(workdir)
     env.pop("VERIF_UNDER_CROSSHAIR", None)
     p = subprocess.run([common.PY, "-c", code], cwd=workdir, env=env, stdout=subprocess.PIPE, stderr=subprocess.STDOUT, text=True)
     return p.returncode in (10, 11), p.stdout.strip()[-500:]
@@ -151,7 +161,7 @@ def _native_smoke(report: common.Report, wd: pathlib.Path, conds: List[Cond]) ->
                 f"print('@@' + json.dumps([list(a) for a in getattr(m, 'NATIVE_SMOKE', {{}}).get({c.func!r}, [])]))\n")
         env = dict(os.environ)
         env.update(c.params)
-        env["PYTHONPATH"] = f"{wd}:{common.VERIF}"
+        env["PYTHONPATH"] = _pp(wd)
         p = subprocess.run([common.PY, "-c", code], cwd=wd, env=env, stdout=subprocess.PIPE, stderr=subprocess.PIPE, text=True)
         line = [l for l in p.stdout.splitlines() if l.startswith("@@")]
         if not line:
@@ -199,6 +209,7 @@ def run_conditions(report: common.Report, conds: List[Cond], jobs: Optional[int]
             c.verdict, c.detail, c.call, c.wall = r["verdict"], r["detail"], r["call"], r["wall"]
             report.solver_s += r["wall"]
             ident = c.ident()
+            report.extra.setdefault("condition_walls_s", {})[ident] = dict(wall=round(r["wall"], 1), per_condition_timeout=c.timeout, verdict=r["verdict"])
             if c.expect == "confirm":
                 ok, tdetail = twin_ok.get(ident, (False, "no twin"))
                 report.vacuity[ident] = "twin refuted (reachable)" if ok else f"TWIN NOT REFUTED: {tdetail}"
